@@ -127,6 +127,15 @@ def cases(tier):
                             # called by the default resolver, and still deferred where the runtime defers
                             c2 = dict(c, custom={k_: v_ for k_, v_ in c["custom"].items() if not k_.startswith("Mutation.")}, root="methods", wrapping="root-methods")
                             yield c2
+                            if k >= 2:
+                                # mixed: ONE top-level field keeps its explicit resolver, the others are root methods
+                                # (fields with and without a resolver of their own still run in document order)
+                                tops = [k_ for k_ in c["custom"] if k_.startswith("Mutation.")]
+                                for keep in (tops[0], tops[-1]):
+                                    for style in ("sync", "async"):
+                                        cm = {k_: v_ for k_, v_ in c["custom"].items() if not k_.startswith("Mutation.")}
+                                        cm[keep] = style
+                                        yield dict(c, custom=cm, root="methods", wrapping="root-methods-mixed")
                         if wname == "named-operation":
                             c["operation_name"] = "Wanted"
                         if wname == "skipped-first-occurrence":
